@@ -34,6 +34,14 @@ package main
 //                     end, delivered whole, in exact bursts, one byte per read around the end
 //                     of the big value, and through the real binary; closed-form oracle: every
 //                     value once, in order
+//   every-byte-corruption  valid streams with one byte replaced / inserted, the byte running over EVERY
+//                     value 0x00-0x1f and 0x7f-0xff, in every position class (string, escape, quote,
+//                     number, literal, between values, inside a composite, before / after); the JSON
+//                     grammar says which must be errors
+//   stdin-descriptor-kinds  the real binary without file arguments, stdin a character device
+//                     (/dev/zero, /dev/full, /dev/urandom), /dev/null, closed, an empty / regular
+//                     file, a pipe, a socket, a terminal: non-JSON stdin is reported, a terminal is
+//                     not read, a named file keeps stdin unread
 
 import (
 	"bytes"
@@ -1950,5 +1958,408 @@ func init() {
 		Name: "selector-side-effects", Prop: "C03",
 		Rule: "streams of 2-6 values (records with an id and a list, arrays of records, arrays of numbers; one file or spread over two) under 1-3 -r selectors WITH SIDE EFFECTS on their own variables — $[n++], $[++n], x = x + 1 twice, i += 1, c++ in an object literal, seen.push($.id) on an unset seen, assignments to members / elements of unset variables, match (n++) with next / exit arms, a printf inside the selector, prev = $.id — also the same selector twice, and rule programs that keep no state between roots (two of them use the selector's variable names themselves); compared with the model (a fresh nested evaluator per value and selector) on class, out, file; oracle: the output equals the concatenation of the outputs of runs on each value ALONE (up to the first failure / exit), and, where no selector fails, prints or leaves, of runs on each value alone under each selector ALONE",
 		Gen:  c03SelectorSideEffects,
+	})
+}
+
+// ---- every-byte-corruption --------------------------------------------------------------
+//
+// A valid stream with ONE byte corrupted, the corrupting byte running over EVERY value
+// 0x00-0x1f and 0x7f-0xff (and, in the thorough tier, the printable ones too), replaced or
+// inserted in every position class: inside a string, inside an escape sequence, on a quote,
+// inside a number, inside a literal, in the white space between top-level values, in the white
+// space / punctuation inside a composite, before the first and after the last value. The JSON
+// grammar decides most of them without any decoder: outside a string every such byte except
+// tab, line feed and carriage return is an error; inside a string every byte below 0x20 is.
+
+// c03ByteClasses classifies each byte of a VALID stream: S string body, E escape sequence, Q quote,
+// N number, L literal, W white space between top-level values, w white space inside a composite,
+// P punctuation; and says for every insertion point 0..len whether it lies inside a string.
+func c03ByteClasses(data []byte) (cls []byte, inStr []bool, depthAt []int) {
+	cls = make([]byte, len(data))
+	inStr = make([]bool, len(data)+1)
+	depthAt = make([]int, len(data)+1)
+	depth := 0
+	str, esc := false, 0
+	for k, c := range data {
+		inStr[k] = str
+		depthAt[k] = depth
+		switch {
+		case str && esc > 0:
+			cls[k] = 'E'
+			esc--
+			if esc == 0 && c == 'u' {
+				esc = 4
+			}
+		case str && c == '\\':
+			cls[k] = 'E'
+			esc = 1
+		case str && c == '"':
+			cls[k] = 'Q'
+			str = false
+		case str:
+			cls[k] = 'S'
+		case c == '"':
+			cls[k] = 'Q'
+			str = true
+		case c == '[' || c == '{':
+			cls[k] = 'P'
+			depth++
+		case c == ']' || c == '}':
+			cls[k] = 'P'
+			depth--
+		case c == ',' || c == ':':
+			cls[k] = 'P'
+		case c == ' ' || c == '\t' || c == '\n' || c == '\r':
+			cls[k] = 'W'
+			if depth > 0 {
+				cls[k] = 'w'
+			}
+		case c == '-' || c == '+' || c == '.' || c == 'e' && k > 0 && cls[k-1] == 'N' || c == 'E' || c >= '0' && c <= '9':
+			cls[k] = 'N'
+		default:
+			cls[k] = 'L'
+		}
+	}
+	inStr[len(data)] = str
+	depthAt[len(data)] = depth
+	return
+}
+
+var c03ByteBases = []string{
+	"{\"name\":\"alice\"}\n{\"name\":\"bobby\"}\n",
+	"7\n12045\n9\n",
+	"[true, false, null] \"str\" -1.5e+3 ",
+	" [1, {\"k\": [2, \"x\\ny\\u00e9\"]}]  \"é日\" 30",
+	"\"a\"\"b\" true\tnull\r\n0.5",
+	"{ \"a\" : { \"b\" : [ ] } , \"c\" : \"\" }",
+}
+
+func c03GenEveryByte(r *rand.Rand, tier string, emit func(Case)) {
+	fields := []string{"class", "out", "file"}
+	nt := func(i Resp) bool { return i["out"] != "-" && i["out"] != "" }
+	var bytesUnderTest []byte
+	for b := 0; b < 256; b++ {
+		if b < 0x20 || b >= 0x7f || tier == "thorough" {
+			bytesUnderTest = append(bytesUnderTest, byte(b))
+		}
+	}
+	names := []string{"data.json", "<stdin>", "b c.jsonl", "é.json"}
+	bases := append([]string{}, c03ByteBases...)
+	for k := tierN(tier, 2, 12); k > 0; {
+		b := c03Stream(r, 2+r.Intn(3), false)
+		if _, ok := c03Scan(b); ok && len(b) >= 6 && len(b) <= 40 {
+			bases = append(bases, string(b))
+			k--
+		}
+	}
+	for si, bs := range bases {
+		base := []byte(bs)
+		if _, ok := c03Scan(base); !ok {
+			panic("every-byte-corruption: base stream is not valid: " + bs)
+		}
+		prog := c03Programs[si%len(c03Programs)]
+		if si >= len(c03ByteBases) {
+			prog = c03PickProg(r)
+		}
+		name := names[si%len(names)]
+		cls, inStr, depthAt := c03ByteClasses(base)
+		// the positions: all of them (thorough), or two per class
+		type pos struct {
+			k      int
+			insert bool
+			class  string
+			str    bool // the corrupting byte lands inside a string
+		}
+		var all []pos
+		for k := range base {
+			cn := map[byte]string{'S': "inside a string", 'E': "inside an escape sequence", 'Q': "on a quote", 'N': "inside a number", 'L': "inside a literal",
+				'W': "white space between values", 'w': "white space inside a composite", 'P': "punctuation"}[cls[k]]
+			all = append(all, pos{k, false, "replace " + cn, cls[k] == 'S' || cls[k] == 'E'})
+		}
+		for k := 0; k <= len(base); k++ {
+			var cn string
+			switch {
+			case k == 0:
+				cn = "before the first value"
+			case k == len(base):
+				cn = "after the last byte"
+			case inStr[k]:
+				cn = "inside a string"
+			case cls[k-1] == 'N' && cls[k] == 'N':
+				cn = "inside a number"
+			case cls[k-1] == 'L' && cls[k] == 'L':
+				cn = "inside a literal"
+			case depthAt[k] == 0:
+				cn = "between values"
+			default:
+				cn = "inside a composite"
+			}
+			all = append(all, pos{k, true, "insert " + cn, inStr[k]})
+		}
+		chosen := all
+		if tier != "thorough" {
+			by := map[string][]pos{}
+			var order []string
+			for _, p := range all {
+				if by[p.class] == nil {
+					order = append(order, p.class)
+				}
+				by[p.class] = append(by[p.class], p)
+			}
+			chosen = nil
+			for _, c := range order {
+				ps := by[c]
+				chosen = append(chosen, ps[r.Intn(len(ps))])
+				if len(ps) > 1 && si < len(c03ByteBases) {
+					chosen = append(chosen, ps[len(ps)-1])
+				}
+			}
+		}
+		seenPrefix := map[string]bool{}
+		seenMut := map[string]bool{}
+		for _, p := range chosen {
+			for _, b := range bytesUnderTest {
+				var data []byte
+				if p.insert {
+					data = append(append(append([]byte{}, base[:p.k]...), b), base[p.k:]...)
+				} else {
+					if base[p.k] == b {
+						continue
+					}
+					data = append([]byte{}, base...)
+					data[p.k] = b
+				}
+				if seenMut[string(data)] {
+					continue
+				}
+				seenMut[string(data)] = true
+				// what the grammar says, without a decoder
+				mustErr := false
+				if p.str {
+					mustErr = b < 0x20
+				} else {
+					mustErr = (b < 0x20 || b >= 0x7f) && b != '\t' && b != '\n' && b != '\r'
+				}
+				ends, valid := c03Scan(data)
+				ref := c03FaultOracle(name, data)
+				fname := name
+				c := Case{Req: RunReq(prog, nil, []File{{Name: name, Data: data}}, false), Fields: fields, NonTrivial: nt,
+					Meta: c03Meta(prog, data, "mutation", fmt.Sprintf("%s: byte 0x%02x at offset %d", p.class, b, p.k), "base", strconv.Quote(bs), "file name", name,
+						"row", p.class, "col", fmt.Sprintf("0x%02x", b&0xf0)),
+					Oracle: func(i Resp) string {
+						if mustErr && (i["class"] != "json" || string(i.Bytes("file")) != fname) {
+							return fmt.Sprintf("C03: a byte 0x%02x %s is not JSON: the run must end in a JSON input error naming %q, got class %s file %q", b, strings.SplitN(p.class, " ", 2)[1], fname, i["class"], i.Bytes("file"))
+						}
+						return ref(i)
+					}}
+				if mustErr && valid {
+					panic(fmt.Sprintf("every-byte-corruption: encoding/json accepts %q", data))
+				}
+				if !valid {
+					var prefix []byte
+					if len(ends) > 0 {
+						prefix = data[:ends[len(ends)-1]]
+					}
+					g := fmt.Sprintf("byte-prefix-%d-%x", si, prefix)
+					if !seenPrefix[g] {
+						seenPrefix[g] = true
+						emit(Case{ID: g, Req: RunReq(prog, nil, []File{{Name: name, Data: prefix}}, false), Fields: fields,
+							Meta: c03Meta(prog, prefix, "mutation", "clean prefix (reference of its group)"), Group: g, NonTrivial: nt})
+					}
+					c.Group, c.GroupCheck = g, c03PrefixCheck
+				}
+				emit(c)
+			}
+		}
+	}
+}
+
+func init() {
+	register(Family{
+		Name: "every-byte-corruption", Prop: "C03",
+		Rule: "valid streams (6 fixed ones covering objects with string members, bare numbers, literals, escapes and non-ASCII text, adjacent strings, every white-space byte, plus random ones) with ONE byte corrupted: every byte value 0x00-0x1f and 0x7f-0xff (thorough: all 256) replaces a byte of each class (string body, escape sequence, quote, number, literal, white space between values / inside a composite, punctuation) and is inserted at an insertion point of each class (before the first value, inside a string / number / literal, between values, inside a composite, after the last byte) -- quick: two positions per class and stream, thorough: every position. Compared with the model (class, out, file). Oracle (C03) from the JSON grammar alone: outside a string every such byte except tab / LF / CR, inside a string every byte below 0x20, must give a JSON input error naming the file; plus encoding/json run by the harness as reference (ok only if the whole stream is values + white space) and (Group) output = output of the clean run on the complete values before the corruption, no END rule. Non-trivial = output.",
+		Gen:  c03GenEveryByte,
+	})
+}
+
+// ---- stdin-descriptor-kinds -------------------------------------------------------------
+//
+// With no file arguments standard input IS the input unless it is a terminal -- whatever kind of
+// descriptor it is: a character device that is not a terminal (/dev/zero, /dev/full: endless NUL
+// bytes, which is not JSON; /dev/urandom: not JSON either), /dev/null, a closed descriptor, a
+// regular file, a pipe, a socket. Malformed stdin must be REPORTED (status 1, `could not parse
+// <stdin>`), never taken for "no input". And a real terminal (a pseudo-terminal nobody types
+// into) is not read at all.
+
+type c03KindProg struct {
+	text    string
+	noInput string // stdout when there is no input at all (BEGIN and END only)
+}
+
+var c03KindProgs = []c03KindProg{
+	{"BEGIN { print \"b\" }\n{ print \"v\", $ }\nEND { print \"END\", 1 }", "b\nEND 1\n"},
+	{"{ print \"value\" }", ""},
+	{"END { print \"done\" }", "done\n"},
+	{"BEGINFILE { print \"bf\", $file } { print $file, $ } ENDFILE { print \"ef\" }", ""},
+	{"BEGIN { print \"only\" }", "only\n"},
+	{"", ""},
+}
+
+func c03GenStdinKinds(r *rand.Rand, tier string, emit func(Case)) {
+	if os.Getenv("JQAWK_BIN") == "" {
+		emit(Case{ID: "no-binary", Req: "cli - - - -", ImplOnly: true, Oracle: func(i Resp) string { return "JQAWK_BIN is not set: the binary was not run" },
+			Meta: map[string]string{"problem": "env JQAWK_BIN is not set; this family runs the real binary"}})
+		return
+	}
+	shapes := []string{"inline", "-f", "-r", "-o -", "--", "-r x2"}
+	nuls := make([]byte, 4096)
+	streams := []struct {
+		what string
+		data []byte
+	}{
+		{"two good values", []byte("[1, 2]\n{\"a\": 1}\n")},
+		{"a good value, then a NUL byte", []byte("[1]\n\x00")},
+		{"NUL bytes only", nuls[:64]},
+		{"a truncated value", []byte("[1, 2]\n{\"a\": ")},
+	}
+	all := []string{"exit", "out", "stderr"}
+	n := 0
+	for pi, p := range c03KindProgs {
+		for si, shape := range shapes {
+			if tier != "thorough" && si != pi%len(shapes) && si != (pi+3)%len(shapes) {
+				continue
+			}
+			n++
+			var argv []string
+			var disk []CliFile
+			switch shape {
+			case "-r":
+				argv = []string{"-r", "$"}
+			case "-r x2":
+				argv = []string{"-r=$", "-r", "[$]"}
+			case "-o -":
+				argv = []string{"-o", "-"}
+			case "--":
+				argv = []string{"--"}
+			}
+			if shape == "-f" {
+				argv = append(argv, "-f", "prog.jqawk")
+				disk = []CliFile{{Name: "prog.jqawk", Data: []byte(p.text)}}
+			} else {
+				argv = append(argv, p.text)
+			}
+			g := fmt.Sprintf("kind-%d", n)
+			meta := func(what, bytes string) map[string]string {
+				return metaProg(p.text, "argv", strings.Join(argv, " ␣ "), "stdin is", what, "stdin bytes", bytes, "row", what, "col", shape)
+			}
+			basic := func(i Resp) string {
+				switch i["class"] {
+				case "badrequest", "crash", "garbled", "nobinary":
+					return "harness problem running the binary: " + i.String()
+				}
+				return c14Basic(i)
+			}
+			// malformed stdin must be reported: status 1, a diagnostic naming <stdin>, and no END rule
+			reported := func(what string) func(Resp) string {
+				return func(i Resp) string {
+					if w := basic(i); w != "" || i["exit"] == "" {
+						return w
+					}
+					stderr := string(i.Bytes("stderr"))
+					if i["exit"] != "1" || !strings.Contains(stderr, "could not parse <stdin>") {
+						return fmt.Sprintf("C03: stdin is %s, which is not JSON, and there is no file argument: expected status 1 and `could not parse <stdin>: ...`, got status %s, stderr %q, stdout %q",
+							what, i["exit"], short(stderr), short(string(i.Bytes("out"))))
+					}
+					out := string(i.Bytes("out"))
+					if strings.Contains(out, "END 1") || strings.Contains(out, "done") {
+						return fmt.Sprintf("C03: an END rule ran after the JSON input error: stdout %q", short(out))
+					}
+					return ""
+				}
+			}
+			// 1. endless NUL bytes: /dev/zero, /dev/full -- and a pipe with 4096 of them (first member, compared with the model)
+			gz := g + "z"
+			nulReq := CliReq(argv, nuls, true, disk, "")
+			emit(Case{ID: gz + "/pipe", Req: nulReq, Fields: c14CliFields, Group: gz, Meta: meta("a pipe (first member of the group)", "4096 NUL bytes"), Oracle: reported("a pipe carrying NUL bytes"), NonTrivial: c14NT})
+			for _, kind := range []string{"zero", "full"} {
+				emit(Case{ID: gz + "/" + kind, Req: CliStdinKindReq(argv, nil, kind, disk, ""), ModelReq: nulReq, Fields: c14CliFields, Group: gz, GroupFields: all,
+					Meta: meta("the character device /dev/"+kind, "NUL bytes without end"), Oracle: reported("/dev/" + kind + " (NUL bytes)"), NonTrivial: c14NT})
+			}
+			emit(Case{ID: g + "/random", Req: CliStdinKindReq(argv, nil, "random", disk, ""), ImplOnly: true,
+				Meta: meta("the character device /dev/urandom", "random bytes without end"), Oracle: reported("/dev/urandom (random bytes)"), NonTrivial: c14NT})
+			// 2. no bytes: an empty pipe (first member), an empty regular file, /dev/null, a closed descriptor
+			ge := g + "e"
+			emptyReq := CliReq(argv, []byte{}, true, disk, "")
+			emit(Case{ID: ge + "/pipe", Req: emptyReq, Fields: c14CliFields, Group: ge, Meta: meta("an empty pipe (first member of the group)", "none"), Oracle: basic,
+				NonTrivial: func(i Resp) bool { return i["exit"] != "" }})
+			for _, kind := range []string{"empty", "null", "closed"} {
+				emit(Case{ID: ge + "/" + kind, Req: CliStdinKindReq(argv, nil, kind, disk, ""), ModelReq: emptyReq, Fields: c14CliFields, Group: ge, GroupFields: all,
+					Meta:   meta(map[string]string{"empty": "an empty regular file", "null": "/dev/null", "closed": "closed (`<&-`)"}[kind], "none"),
+					Oracle: basic, NonTrivial: func(i Resp) bool { return i["exit"] != "" }})
+			}
+			// 3. the same bytes through a pipe (first member), a regular file, a socket
+			for di, st := range streams {
+				if tier != "thorough" && (di+n)%2 != 0 {
+					continue
+				}
+				gd := fmt.Sprintf("%sd%d", g, di)
+				pipeReq := CliReq(argv, st.data, true, disk, "")
+				orc := basic
+				if di > 0 {
+					orc = reported("a stream with " + st.what)
+				}
+				emit(Case{ID: gd + "/pipe", Req: pipeReq, Fields: c14CliFields, Group: gd, Meta: meta("a pipe (first member of the group)", strconv.Quote(string(st.data))), Oracle: orc, NonTrivial: c14NT})
+				for _, kind := range []string{"file", "socket"} {
+					emit(Case{ID: gd + "/" + kind, Req: CliStdinKindReq(argv, st.data, kind, disk, ""), ModelReq: pipeReq, Fields: c14CliFields, Group: gd, GroupFields: all,
+						Meta: meta(map[string]string{"file": "a regular file opened for reading", "socket": "a socket"}[kind], strconv.Quote(string(st.data))), Oracle: orc, NonTrivial: c14NT})
+				}
+			}
+			// 4. a file argument is named: stdin is NOT read, whatever it is
+			{
+				argvF := append(append([]string{}, argv...), "named.json")
+				named := CliFile{Name: "named.json", Data: []byte("[7, 8]\n")}
+				diskF := append(append([]CliFile{}, disk...), named)
+				gf := g + "f"
+				emit(Case{ID: gf + "/null", Req: CliReq(argvF, nil, false, diskF, ""), Fields: c14CliFields, Group: gf, Meta: meta("/dev/null, next to the file argument named.json (first member of the group)", "none"), Oracle: basic, NonTrivial: c14NT})
+				for _, kind := range []string{"zero", "random", "tty"} {
+					emit(Case{ID: gf + "/" + kind, Req: CliStdinKindReq(argvF, nil, kind, diskF, ""), ModelReq: CliReq(argvF, nil, false, diskF, ""), Fields: c14CliFields, Group: gf, GroupFields: all,
+						Meta: meta(kind+" device, next to the file argument named.json: not read", "-"), NonTrivial: c14NT,
+						Oracle: func(i Resp) string {
+							if i["class"] == "nodevice" {
+								return ""
+							}
+							return basic(i)
+						}})
+				}
+			}
+			// 5. a terminal: not an input; only BEGIN and END rules run
+			if shape != "-o -" {
+				want := p.noInput
+				emit(Case{ID: g + "/tty", Req: CliStdinKindReq(argv, nil, "tty", disk, "") + ",t=6000", ImplOnly: true,
+					Meta:       meta("a terminal (the slave side of a fresh pseudo-terminal; nothing is typed)", "none"),
+					NonTrivial: func(i Resp) bool { return i["exit"] != "" },
+					Oracle: func(i Resp) string {
+						if i["class"] == "nodevice" {
+							return ""
+						}
+						if w := basic(i); w != "" || i["exit"] == "" {
+							return w
+						}
+						if i["exit"] != "0" || string(i.Bytes("out")) != want {
+							return fmt.Sprintf("C03/C14: stdin is a terminal and there is no file argument: there is no input, only BEGIN and END rules run: expected status 0 and stdout %q, got status %s, stdout %q, stderr %q",
+								want, i["exit"], i.Bytes("out"), short(string(i.Bytes("stderr"))))
+						}
+						return ""
+					}})
+			}
+		}
+	}
+}
+
+func init() {
+	register(Family{
+		Name: "stdin-descriptor-kinds", Prop: "C03",
+		Rule: "the real binary WITHOUT file arguments (6 programs: BEGIN + rule + END, a bare rule, END only, BEGINFILE / ENDFILE with $file, BEGIN only, the empty program; inline, -f, after --, with one or two -r selectors, with -o -) and stdin of every kind: the character devices /dev/zero and /dev/full (endless NUL bytes; Group with a pipe carrying 4096 NUL bytes, which is compared with the model: same exit, stdout, stderr), /dev/urandom (implementation only), an empty pipe / an empty regular file / /dev/null / a closed descriptor (Group; compared with the model on empty stdin), and four streams (good values; a good value then a NUL byte; NUL bytes; a truncated value) through a pipe / a regular file / a socket (Group; model). Oracle (C03): stdin that is not JSON is REPORTED -- status 1, stderr says `could not parse <stdin>`, no END rule has run -- never taken for the absence of input. With a file argument named, stdin is not read whatever it is (/dev/null, /dev/zero, /dev/urandom, a terminal: same answer). With a TERMINAL on stdin (a fresh pseudo-terminal nobody types into) and no file argument there is no input: status 0 and exactly the BEGIN and END output (skipped, class nodevice, where /dev/ptmx is missing).",
+		Gen:  c03GenStdinKinds,
 	})
 }
